@@ -21,6 +21,9 @@ type VerifC06OpEvent struct {
 	Op       OpCode
 	Contract common.Address // callContext.contract.Address()
 	Args     []*big.Int     // the operands, top of stack first (minStack of them)
+	// Authorized is the account the frame's last successful AUTH set (callContext.authorized), nil if none:
+	// the account in whose name AUTHCALL calls, as opposed to the sponsor (evm.Origin) who pays the value.
+	Authorized *common.Address
 	Done     bool
 	Result   *big.Int // top of stack after the opcode returned without error (nil otherwise)
 	Err      error    // error returned by the opcode function (aborts the frame)
@@ -45,9 +48,13 @@ func VerifC06Instrument(evm *EVM, ops []OpCode, cb func(ev *VerifC06OpEvent)) bo
 			for i := 0; i < nargs && i < callContext.stack.len(); i++ {
 				ev.Args = append(ev.Args, callContext.stack.Back(i).ToBig())
 			}
+			if callContext.authorized != nil {
+				au := *callContext.authorized
+				ev.Authorized = &au
+			}
 			cb(ev)
 			ret, err := origExec(pc, interpreter, callContext)
-			done := &VerifC06OpEvent{Op: opc, Contract: ev.Contract, Args: ev.Args, Done: true, Err: err}
+			done := &VerifC06OpEvent{Op: opc, Contract: ev.Contract, Args: ev.Args, Authorized: ev.Authorized, Done: true, Err: err}
 			if err == nil && callContext.stack.len() > 0 {
 				done.Result = callContext.stack.peek().ToBig()
 			}
